@@ -738,7 +738,14 @@ func RunConc(out string) {
 					}
 					rec(g, "call", tr.M{"g": g, "op": "put", "id": id})
 					ev, ret := c.Put(blocks[id-1])
-					rec(g, "ret", tr.M{"g": g, "op": "put", "evid": idOf(ev), "ret": ret})
+					evid := idOf(ev)
+					rec(g, "ret", tr.M{"g": g, "op": "put", "evid": evid, "ret": ret})
+					if evid > 0 && evid != id {
+						// the caller recycles the block it was handed back for another member, as the reader does
+						nbase := gbases[(evid+g)%nb]
+						rec(g, "overwrite", tr.M{"g": g, "id": evid, "base": nbase, "used": true})
+						bgzf.VerifOverwriteBlock(ev.(*gblk).Block, nbase, 1+evid, true)
+					}
 				}
 			case k < 7:
 				return func(g int) {
@@ -857,13 +864,11 @@ func (g *gate) meet() {
 	if atomic.LoadInt32(&g.armed) == 0 || atomic.AddInt32(&g.budget, -1) < 0 {
 		return
 	}
-	n := atomic.AddInt32(&g.arrived, 1)
-	if n%2 == 0 {
-		return // the one that was waited for goes straight on
-	}
-	deadline := time.Now().Add(2 * time.Millisecond)
-	for atomic.LoadInt32(&g.arrived) < n+1 && time.Now().Before(deadline) {
-		runtime.Gosched()
+	// every other arrival pauses for a moment at the accessor: long enough for a whole operation of
+	// the other goroutine (and the recycling of a block it is handed) to take place if nothing - the
+	// cache's lock - keeps it out
+	if atomic.AddInt32(&g.arrived, 1)%2 == 1 {
+		time.Sleep(time.Millisecond)
 	}
 }
 
